@@ -280,8 +280,8 @@ struct ExSpace {
 fn ex_spaces() -> [ExSpace; 4] {
     [
         ExSpace { name: "x-only: x in {0,1,2,5}, dx in -2..=2, y = dy = 0", symbols: 20, inner: 3, n_quick: 5, n_thorough: 6 },
-        ExSpace { name: "y-only: y in {0,1,2,5}, dy in -2..=2, x = dx = 0", symbols: 20, inner: 3, n_quick: 5, n_thorough: 6 },
-        ExSpace { name: "2-D small: (x,y) in {0,1,2}x{0,1}, (dx,dy) in {-1,0,1}^2", symbols: 54, inner: 2, n_quick: 4, n_thorough: 4 },
+        ExSpace { name: "y-only: y in {0,1,2,5}, dy in -2..=2, x = dx = 0", symbols: 20, inner: 3, n_quick: 5, n_thorough: 5 },
+        ExSpace { name: "2-D small: (x,y) in {0,1,2}x{0,1}, (dx,dy) in {-1,0,1}^2", symbols: 54, inner: 2, n_quick: 3, n_thorough: 4 },
         ExSpace { name: "2-D: (x,y) in {0,1,2,5}^2, (dx,dy) in {-2..2}^2", symbols: 400, inner: 2, n_quick: 2, n_thorough: 3 },
     ]
 }
@@ -1662,16 +1662,16 @@ fn main() {
         ctx.prop_stage("iup-random", Isolation::Threads, ctx.n(30_000, 400_000), iup_strategy, test_iup);
     }
     if on("gvar-offsets") {
-        ctx.prop_stage("gvar-offsets", Isolation::Threads, ctx.n(160, 1_600), offsets_strategy, test_offsets);
+        ctx.prop_stage("gvar-offsets", Isolation::Threads, ctx.n(160, 1_000), offsets_strategy, test_offsets);
     }
     if on("draw") {
-        ctx.prop_stage("draw", Isolation::Threads, ctx.n(10_000, 120_000), || gvar_strategy(DRAW_PARAMS), test_draw);
+        ctx.prop_stage("draw", Isolation::Threads, ctx.n(10_000, 100_000), || gvar_strategy(DRAW_PARAMS), test_draw);
     }
     if on("draw-no-required") {
         ctx.prop_stage("draw-no-required", Isolation::Threads, ctx.n(300, 3_000), draw_zero_strategy, test_draw_zero);
     }
     if on("gvar-table") {
-        ctx.prop_stage("gvar-table", Isolation::Threads, ctx.n(6_000, 80_000), || gvar_strategy(TABLE_PARAMS), test_table);
+        ctx.prop_stage("gvar-table", Isolation::Threads, ctx.n(6_000, 40_000), || gvar_strategy(TABLE_PARAMS), test_table);
     }
     ctx.finish();
 }
